@@ -5,6 +5,9 @@ package utils
 import (
 	"bytes"
 	"io"
+	"time"
+
+	"github.com/dtn7/dtn7-go/pkg/bpv7"
 
 	"github.com/dtn7/dtn7-go/pkg/cla/tcpclv4/internal/msgs"
 	verif "github.com/dtn7/dtn7-go/pkg/zzverif"
@@ -59,5 +62,149 @@ func H11_Segments() {
 	verif.Assert(in.IsFinished(), "receiver has the complete transfer")
 	verif.Assert(acked == uint64(L), "acknowledged length equals the data length")
 	verif.Assert(bytes.Equal(in.buf.Bytes(), data), "receiver holds exactly the data")
+	verif.Reach("end")
+}
+
+func encBundle(b bpv7.Bundle) []byte {
+	var w bytes.Buffer
+	_ = b.WriteBundle(&w)
+	return append([]byte{}, w.Bytes()...)
+}
+
+// H11_Manager: two real TransferManagers back to back (handler goroutines, acknowledgement routing, the 10 s
+// acknowledgement timeout in virtual time); the harness is the link between them and injects one fault: none, the k-th
+// acknowledgement replaced by a refusal, every acknowledgement from the k-th on lost, every segment from the k-th on
+// lost (session loss). For every segment size in the bound: Send returns success only if the receiver handed up exactly
+// one bundle identical to the one sent; without a (reachable) fault it does return success; a refusal, a missing
+// acknowledgement or a lost segment make it return an error; the receiver never hands up anything but the sent bundle,
+// and at most once. With "bidir" both sides send at the same time.
+func H11_Manager() {
+	b, err := bpv7.Builder().Source("dtn://a/").Destination("dtn://b/").CreationTimestampEpoch().Lifetime("1h").
+		BundleAgeBlock(0).PayloadBlock([]byte("hello")).Build()
+	verif.Assume(err == nil)
+	want := encBundle(b)
+	L := len(want)
+	// segment sizes: small ones, and the ones around the encoded length (so that m | L, m = L, m > L occur)
+	sizes := []int{L - 1, L, L + 1}
+	for m := 1; m <= verif.Param("maxm", 6); m++ {
+		sizes = append(sizes, m)
+	}
+	for _, d := range []int{2, 3, 4, 5, 7} {
+		if L%d == 0 && L/d > verif.Param("maxm", 6) {
+			sizes = append(sizes, L/d) // divisors of the encoded length
+		}
+	}
+	m := sizes[verif.Choose("m", len(sizes))]
+	nseg := (L + m - 1) / m
+	fault := verif.Choose("fault", 4)
+	k := 0
+	if fault != 0 {
+		k = verif.Size("k", 1, 3)
+	}
+	bidir := fault == 0 && verif.Param("bidir", 0) == 1 && verif.Bool("bidir")
+
+	aIn, aOut := make(chan msgs.Message, 4), make(chan msgs.Message, 4)
+	bIn, bOut := make(chan msgs.Message, 4), make(chan msgs.Message, 4)
+	A := NewTransferManager(aIn, aOut, uint64(m))
+	B := NewTransferManager(bIn, bOut, uint64(m))
+	stop := make(chan struct{})
+	go func() { // a -> b: data segments (and, with bidir, a's acknowledgements)
+		segs := 0
+		for {
+			select {
+			case <-stop:
+				return
+			case msg := <-aOut:
+				if _, isSeg := msg.(*msgs.DataTransmissionMessage); isSeg {
+					segs++
+					if fault == 3 && segs >= k {
+						continue // lost
+					}
+				}
+				bIn <- msg
+			}
+		}
+	}()
+	go func() { // b -> a: acknowledgements (and, with bidir, b's segments)
+		acks := 0
+		for {
+			select {
+			case <-stop:
+				return
+			case msg := <-bOut:
+				if ack, isAck := msg.(*msgs.DataAcknowledgementMessage); isAck {
+					acks++
+					if fault == 1 && acks == k {
+						aIn <- msgs.NewTransferRefusalMessage(msgs.RefusalUnknown, ack.TransferId)
+						continue
+					}
+					if fault == 2 && acks >= k {
+						continue // lost
+					}
+				}
+				aIn <- msg
+			}
+		}
+	}()
+	var gotB, gotA [][]byte
+	collect := func(tm *TransferManager, into *[][]byte) {
+		bundles, errs := tm.Exchange()
+		for {
+			select {
+			case <-stop:
+				return
+			case rb := <-bundles:
+				*into = append(*into, encBundle(rb))
+			case <-errs:
+			}
+		}
+	}
+	go collect(B, &gotB)
+	go collect(A, &gotA)
+	var errBack error
+	backDone := make(chan struct{})
+	var want2 []byte
+	if bidir {
+		b2, err2 := bpv7.Builder().Source("dtn://b/").Destination("dtn://a/").CreationTimestampEpoch().Lifetime("1h").
+			BundleAgeBlock(0).PayloadBlock([]byte("HELLO!")).Build()
+		verif.Assume(err2 == nil)
+		want2 = encBundle(b2)
+		go func() {
+			errBack = B.Send(b2)
+			close(backDone)
+		}()
+	}
+	sendErr := A.Send(b)
+	if bidir {
+		<-backDone
+	}
+	time.Sleep(time.Millisecond) // let the receiving side finish handing up
+	close(stop)
+	_ = A.Close()
+	_ = B.Close()
+
+	verif.Assert(len(gotB) <= 1, "the receiver hands up at most one bundle per transfer")
+	if len(gotB) == 1 {
+		verif.Assert(bytes.Equal(gotB[0], want), "the receiver hands up exactly the bundle that was sent")
+	}
+	if sendErr == nil {
+		verif.Assert(len(gotB) == 1, "Send returns success only if the receiver obtained the complete transfer")
+	}
+	reachable := fault != 0 && k <= nseg
+	switch {
+	case !reachable:
+		verif.Assert(sendErr == nil && len(gotB) == 1, "without a fault the transfer succeeds and is handed up once")
+	case fault == 1:
+		verif.Assert(sendErr != nil, "a refused transfer is reported as an error")
+	case fault == 2:
+		verif.Assert(sendErr != nil, "a transfer whose acknowledgements stop is reported as an error")
+	case fault == 3:
+		verif.Assert(sendErr != nil && len(gotB) == 0, "a transfer cut off by session loss is reported as an error and nothing is handed up")
+	}
+	if bidir {
+		verif.Assert(errBack == nil && len(gotA) == 1 && bytes.Equal(gotA[0], want2), "the transfer in the other direction succeeds at the same time")
+	} else {
+		verif.Assert(len(gotA) == 0, "nothing is handed up on the sending side")
+	}
 	verif.Reach("end")
 }
